@@ -3,6 +3,7 @@
 import glob, json, os
 VERIF = os.path.dirname(os.path.dirname(os.path.abspath(__file__)))
 rows = []
+HIST = json.load(open(os.path.join(VERIF, "seeded", "HISTORY.json"))) if os.path.exists(os.path.join(VERIF, "seeded", "HISTORY.json")) else {}
 for m in sorted(glob.glob(os.path.join(VERIF, "seeded", "*", "meta.json"))):
     d = json.load(open(m))
     name = os.path.basename(os.path.dirname(m))
@@ -11,11 +12,13 @@ for m in sorted(glob.glob(os.path.join(VERIF, "seeded", "*", "meta.json"))):
         v = c["violations"]
         what = "; ".join(x.split("replay=")[1].split("/")[-1].replace(".json", "")[:90] + (" (no-failing-input-found)" if "no-failing-input-found" in x else "") for x in v[:2])
         rows.append((name, p, "caught (exit 1)" if c["exit"] == 1 else f"MISSED (exit {c['exit']})", what or c.get("summary", "")[:80],
+                     (HIST.get(name, {}).get("first", "caught") + (" -> " + HIST[name]["then"] if name in HIST else "")).replace("|", "/"),
                      d.get("summary", "")[:110].replace("|", "/")))
 with open(os.path.join(VERIF, "seeded", "MATRIX.md"), "w") as f:
     f.write("# Seeded changes vs checks\n\nEach change compiles, keeps the 690 baseline tests green and breaks the property (demo.py). "
-            "`caught` = the property's quick check exits 1 with a VIOLATION line against the patched /repo.\n\n")
-    f.write("| seed | check | outcome | first violated obligation / clause | change |\n|---|---|---|---|---|\n")
+            "`caught` = the property's quick check exits 1 with a VIOLATION line against the patched tree. "
+            "The column 'first evaluation' is the outcome before any strengthening (HISTORY.json).\n\n")
+    f.write("| seed | check | outcome now | first violated obligation / clause | first evaluation -> strengthening | change |\n|---|---|---|---|---|---|\n")
     for r in rows:
         f.write("| " + " | ".join(r) + " |\n")
     n = len(rows); c = sum(1 for r in rows if r[2].startswith("caught"))
